@@ -5,6 +5,7 @@ import hashlib
 import json
 import os
 import re
+import shutil
 import subprocess
 import sys
 import time
@@ -85,23 +86,37 @@ def regenerate():
     A translator that stops (construct outside its fragment) leaves a stub in place of each of its
     outputs that does not compile, so exactly the Coq files that depend on it - and through them the
     properties that rely on it - fail to build; properties that do not use it are unaffected."""
-    os.makedirs(os.path.join(COQ, 'Gen'), exist_ok=True)
+    gen = os.path.join(COQ, 'Gen')
+    os.makedirs(gen, exist_ok=True)
+    # the translators write into a fresh directory; a file is then installed only when its text differs from the one in
+    # place, so that an unchanged source tree leaves coq/Gen (and every .vo that depends on it) untouched - checks that run
+    # side by side do not rewrite compiled files under each other
+    tmp = gen + '.new.%d' % os.getpid()
+    shutil.rmtree(tmp, ignore_errors=True)
+    os.makedirs(tmp)
     logs = {}
     for tool in sorted(os.listdir(os.path.join(VERIF, 'tools'))):
         if tool.startswith('gen_') and tool.endswith('.py'):
             env = dict(os.environ, VERIF_REPO=REPO)
             tpath = os.path.join(VERIF, 'tools', tool)
             try:
-                rc, out = sh(['/venv/bin/python', tpath, os.path.join(COQ, 'Gen')], timeout=300, env=env)
+                rc, out = sh(['/venv/bin/python', tpath, tmp], timeout=300, env=env)
             except subprocess.TimeoutExpired:
                 rc, out = 124, 'timeout'
             logs[tool] = (rc, out[-2000:])
             if rc != 0:
                 msg = re.sub(r'[^\w .,:;=<>/\[\]-]', ' ', out[-400:])
                 for o in re.findall(r"os\.path\.join\(OUT, '(\w+\.v)'\)", open(tpath).read()):
-                    with open(os.path.join(COQ, 'Gen', o), 'w') as f:
+                    with open(os.path.join(tmp, o), 'w') as f:
                         f.write(f'(* {tool} could not translate the working tree: {msg} *)\n'
                                 'Definition translator_stopped : False := I.\n')
+    for o in sorted(os.listdir(tmp)):
+        if not o.endswith('.v'):
+            continue
+        src, dst = os.path.join(tmp, o), os.path.join(gen, o)
+        if not os.path.exists(dst) or open(src).read() != open(dst).read():
+            os.replace(src, dst)
+    shutil.rmtree(tmp, ignore_errors=True)
     return logs
 
 
